@@ -129,6 +129,7 @@ PROPS['C15']['assumptions'] = CRYPTO_ASSUMPTIONS + _TOKEN_CONTRACT_TRUST
 PROPS['C09'] = {
     'units': [{'template': 'token.rs', 'rlimit': 30, 'items': [
         r'^token::Biscuit::', r'^token::unverified::UnverifiedBiscuit::', r'^token::third_party::', r'^format::SerializedBiscuit::extract_blocks$',
+        r'^datalog::symbol::SymbolTable::(get_symbol|print_symbol|print_symbol_default|new)$',
         r'^builder::Algorithm::']},
         {'template': 'chain.rs', 'rlimit': 30, 'items': [r'^format::SerializedBiscuit::(deserialize|from_slice|unsafe_from_slice|verify_inner|verify)$',
         r'^crypto::(ed25519|p256)::', r'^crypto::(PublicKey|PrivateKey|KeyPair)::(from_bytes|from_proto)$']}],
